@@ -646,6 +646,34 @@ impl Runner for R {
                     _ => "bad-args".to_string(),
                 }
             }
+            ["mutall"] => {
+                if self.writer.is_none() {
+                    return "no-writer".to_string();
+                }
+                let f = self.file.bytes();
+                let mut h = FNV_OFFSET;
+                let mut fold = |b: Vec<u8>, what: String, o: &mut Oracle| {
+                    let text = match catch(|| read_text(&read_file(b))) {
+                        Ok(t) => t,
+                        Err(msg) => {
+                            // the writer produced the undamaged file: a reader panic on a damaged copy is reported
+                            o.fail("C15/reader-panics-on-damaged-file", format!("{}: {}", what, msg));
+                            "panic".to_string()
+                        }
+                    };
+                    h = fnv_byte(fnv_bytes(h, text.as_bytes()), 10);
+                };
+                for i in 0..f.len() {
+                    for x in [0x01u8, 0x80, 0xff] {
+                        let mut b = f.clone();
+                        b[i] ^= x;
+                        fold(b, format!("byte {} xor {:#x}", i, x), o);
+                    }
+                    fold(f[..i].to_vec(), format!("truncated to {} bytes", i), o);
+                }
+                o.add("damaged_files_swept", 4 * f.len() as u64);
+                format!("h {}", h)
+            }
             ["readtrunc", n] => {
                 if self.writer.is_none() {
                     return "no-writer".to_string();
@@ -982,6 +1010,28 @@ impl<'a> G<'a> {
         }
     }
 
+    /// a short recording with every kind of chunk, then every single-byte corruption and truncation
+    fn small_session_mutall(&mut self, near_max: bool) {
+        let sha = if self.rng.chance(1, 2) { "none".to_string() } else { format!("x32:{}", self.rng.below(1000)) };
+        let map = if self.rng.chance(1, 2) { "-".to_string() } else { "01020304".to_string() };
+        self.line(format!("new 302e36 6d31 {} 7 c 9 3230 {}", sha, map));
+        // half of them close to i32::MAX: one flipped bit makes the following inline delta overflow
+        let t0 = if near_max { 0x7fff_ff7f } else { self.rng.range(0, 1000) };
+        self.line(format!("t 1 {}", t0));
+        let p = self.small_payload();
+        self.line(format!("s {}", p));
+        let m = self.message();
+        self.line(format!("m {}", m));
+        let g = self.rng.range(1, 31);
+        self.line(format!("t 0 {}", t0 + g));
+        let p = data_with_compressed_len(&mut self.rng, 31);
+        self.line(format!("d {}", p));
+        self.line(format!("t 0 {}", t0 + 100));
+        let m = self.message();
+        self.line(format!("m {}", m));
+        self.line("mutall".to_string());
+    }
+
     fn malformed_of_session(&mut self, n: usize) {
         for _ in 0..n {
             match self.rng.below(3) {
@@ -1056,6 +1106,9 @@ impl<'a> G<'a> {
             self.session(n, false);
             let m = self.rng.below(6) as usize;
             self.malformed_of_session(m);
+            if i % (if thorough { 10 } else { 50 }) == 3 {
+                self.small_session_mutall(i % 20 == 3 || !thorough && i % 100 == 3);
+            }
             if i < sweeps.len() {
                 let l = sweeps[i].clone();
                 self.line(l);
